@@ -12,7 +12,7 @@ Definition L (c : ctx) (p : path) (s : stmt) : res (list expr) := lower_stmt cfg
 
 (* the namespace does not redirect names: module level, or a function without captured / global names *)
 Definition transparent (n : nsp) : Prop :=
-  (forall comp i, get_load_name n comp i = inl (Name i)) /\
+  (forall comp inn i, get_load_name n comp inn i = inl (Name i)) /\
   (forall v, get_assign n "x" v = inl (NamedExpr "x" v)).     (* the only user name the skeletons store to *)
 
 Lemma global_transparent n : n_kind n = NGlobal -> transparent n.
@@ -1737,9 +1737,9 @@ Section FunctionSim.
   Notation Ev := (Ev orc).
   Notation EvSeq := (EvSeq orc).
 
-  Definition fun_symbols : list symbol := [mkSym "x" true false false false false false].
+  Definition fun_symbols : list symbol := [mkSym "x" true false false false false false true].
   Definition fun_symtab : symtab :=
-    ST KModule "top" 0 [mkSym "f" true false false false false false] [] [] [] []
+    ST KModule "top" 0 [mkSym "f" true false false false false false true] [] [] [] []
        [ST KFunction "f" 1 fun_symbols [] [] [] [] []].
   Definition no_args : arguments := mkArgs [] [] None [] [] None [].
   Definition fun_program (b : list sk) : list stmt :=
@@ -1752,8 +1752,14 @@ Section FunctionSim.
     eexists _, _. split; [reflexivity|]. split; [reflexivity|]. split; [reflexivity|].
     split; [reflexivity|]. split; [reflexivity|]. split; [|repeat split; reflexivity].
     split.
-    - intros comp i. unfold get_load_name. cbn [n_kind n_inner_nonlocal n_outer_map n_id]. cbn.
-      destruct (mem i comp); reflexivity.
+    - intros comp inn i.
+      match goal with |- get_load_name ?n _ _ _ = _ => let n' := eval vm_compute in n in change n with n' end.
+      unfold get_load_name. cbn [n_kind n_inner_nonlocal n_outer_map n_id n_syms mem existsb assoc_nat rev find].
+      destruct (mem i comp); [reflexivity|].
+      unfold lookup_sym. cbn [find sy_name sy_local].
+      destruct (String.eqb "x" i) eqn:E; [reflexivity|].
+      unfold get_load_global, self_link. cbn [hidden_by_local lk_kind lk_syms n_kind n_syms n_chain n_id n_inner_nonlocal n_outer_map app].
+      unfold lookup_sym. cbn [find sy_name sy_local]. rewrite E. reflexivity.
     - intros v. reflexivity.
   Qed.
 
